@@ -10,13 +10,14 @@ NUM = ['0', '-0', '1', '-1', '0.5', '-0.5', '0.49', '1.5', '2', '3', '7', '100',
        '(log -1)', '(-(log -1))', '1e-38', '1e-45', '99999999999']
 STR = ['""', '"a"', '"abc"', '"%1"', '"%2 %1"', '"%0"', '"%99999999999"', '"%"', '"%%"', '"%a"', '"%1%"', '" "', '","', '"a,b,,c"', '"ÿþ"', '"\t\n"',
        '"0"', '"1e3"', '"-1"', '"nan"', '"true"', '"[1,2]"', '"{"', '"a""b"', '(toString [0])', '(toString [255, 254])', 'LONGSTR', '"config"', '"missionNamespace"',
-       '"west"', '"B_Soldier_F"', '"x.sqf"', '"/nothere"', '"\\\\a\\\\b"', '"_x"', '"_forEachIndex"', '"gr"', '"%1 %1 %1 %1 %1 %1 %1 %1 %1 %1 %1"']
+       '"west"', '"B_Soldier_F"', '"x.sqf"', '"/nothere"', '"/e0.txt"', '"/e1.txt"', '"/e2.txt"', '"/e3.txt"', '"/e4.sqf"', '"/e5.cpp"', '"e1.txt"', '"/"', '"/e0.txt/x"', '"../e1.txt"', '"\\\\a\\\\b"', '"_x"', '"_forEachIndex"', '"gr"', '"%1 %1 %1 %1 %1 %1 %1 %1 %1 %1 %1"']
 ARR = ['[]', '[1]', '[1,2,3]', '[[]]', '[[1,2],[3]]', '["a"]', '[nil]', '[nil, nil]', '[1, "a"]', '[[1,"a"],[2,"b"]]', '[[2,"b"],[1,"a"],[3,"c"],[0,"d"]]', '[[1],[2,3]]',
        '[[1,2],["a","b"]]', '[200, 2e9]', '[1, 2147483520]', '[-1, 5]', '[0.5, 0.5]', '[0, -1]', '[5, 1]', '[1, 1e10]', '[(log -1), 1]', '[1, (log -1)]', '[0, 0, 0]', '[1e39, -1e39]',
        'BIGARR', 'MIDARR', '[true]', '[{1}]', '[objNull]', '[configNull]', '["%1", 1]', '["%2"]', '["%1 %2 %3", nil, [], {}]', '[0, [1, [2, [3]]]]', '["a", "b", "c"]',
        '["b", "a", "c", "a"]', '[3, 1, 2, (log -1), 0]', '[[3], [1], [(log -1)], [2]]', 'SORTARR', '[[], []]', '[[1], []]', '[west, 1]', '[[0,0,0], 1]', '["x", [0,0,0], [], 0, "NONE"]',
        '[1, [2]]', '["a", 1]', '[1, "a", true, {}, [], objNull]', '[[1, 2], [3, 4]]', '[["k", 1], ["k", 2]]', '[["k"]]', '[[["k", 1]]]', '[0, 1, 2, 3, 4, 5, 6, 7, 8, 9, 10, 11, 12, 13, 14, 15, 16, 17]',
-       '[250, 2147483520]', '[0, 2147483520]', '[2, 1e39]', '[300, 0]', '[299, 5]', '[1, 300]']
+       '[250, 2147483520]', '[0, 2147483520]', '[2, 1e39]', '[300, 0]', '[299, 5]', '[1, 300]', '["%99999999999", 1]', '["%", 1]', '["%1%", 1]', '["%0", 1]', '["%2147483648", 1]',
+       '["%1 %2 %3 %4", 1, "a"]', '["%-1", 1]', '["%1.5", 1]', '[LONGSTR, 1]']
 BOOL = ['true', 'false']
 CODE = ['{}', '{1}', '{nil}', '{_x}', '{true}', '{false}', '{_x > 1}', '{1 + "a"}', '{[]}', '{_this}', '{throw 1}', '{_x == _y}', '{"a"}', '{[_x, _y]}']
 OBJ = ['objNull', 'OBJ', 'OBJ2']
@@ -77,6 +78,21 @@ def load_signatures(path):
     return sigs
 
 
+# type-correct uses whose code argument changes the very array (or map) the operator walks over
+MUTATING = [
+    'MUT apply {MUT resize 0; 1}', 'MUT apply {MUT deleteAt 0; _x}', 'MUT apply {MUT pushBack 1; _x}', '{MUT deleteAt 0} forEach MUT', '{MUT resize 0} forEach MUT',
+    '{MUT pushBack _x; (count MUT) > 2000} forEach MUT', 'MUT select {MUT resize 0; true}', 'MUT select {MUT deleteAt 0; true}', 'MUT findIf {MUT resize 0; false}',
+    '{MUT resize 0; true} count MUT', '{MUT deleteAt 0; true} count MUT', 'MUT apply {MUT set [0, MUT]; 1}', '{MUT append MUT; (count MUT) > 5000} forEach MUT',
+    'MUT apply {MUT = []; _x}', '{MUT = nil; 1} forEach MUT', 'MUT select {MUT sort true; true}', 'MUT apply {reverse MUT; _x}',
+    '{MAPM deleteAt _x} forEach MAPM', '{MAPM set [_x + 100, 1]} forEach MAPM', '{MAPM deleteAt _x} forEach (keys MAPM)',
+    'MUT apply {MUT apply {MUT resize 1; 1}}', '[MUT, MUT] apply {_x resize 0; MUT}', 'MUT insert [0, MUT]', 'MUT append MUT', 'MUT pushBack MUT', 'MUT set [2, MUT]',
+    'MUT deleteRange [0, 2]; MUT select 4', 'MUT resize 2; MUT select 3', '[MUT] joinString MUT', 'MUT = +MUT; MUT', 'str MUT', 'MUT isEqualTo MUT', 'MUT find MUT', 'MUT - MUT', 'MUT + MUT',
+    'MUT arrayIntersect MUT', 'MUT in MUT', 'reverse MUT; MUT', 'MUT sort false; MUT', 'MUT params ["_a", "_b"]', 'MUT params [["_a", 0, [0]], ["_b", 0, [[]], 3]]', 'MUT call {_this resize 0; _this}',
+    'MUT spawn {_this resize 0}', 'selectRandom MUT', 'MUT selectRandomWeighted [1,1]' ,
+]
+MUT_SETUP = 'MUT = [1, 2, 3, 4, 5, 6, 7, 8]; MAPM = createHashMap; for "_i" from 1 to 20 do { MAPM set [_i, _i] };'
+
+
 class OpGen:
     def __init__(self, rng, sigs):
         self.r = rng
@@ -107,7 +123,7 @@ class OpGen:
 
     def cases(self, per_sig, full_product_up_to=3000):
         """-> list of (signature, expression text, setup)"""
-        out = []
+        out = [(('X', 'mutation-while-iterating'), t, MUT_SETUP) for t in MUTATING]
         for sig in self.sigs:
             if sig[0] == 'N':
                 out.append((sig, sig[1], ''))
